@@ -23,6 +23,95 @@ def run(chk):
     tmpls = gen_many(chk, toks, 10 if quick else 150, 25 if quick else 35, "mixed")
     run_templates(chk, tmpls, toks, PREFIXES)
     run_http_templates(chk, toks, 5 if quick else 60, 22 if quick else 30, "mixed", PREFIXES)
+    bare_collection(chk)
+
+
+def bare_collection(chk):
+    """xandikos serves collections in either git layout; over HTTP a collection that is a *bare* repository
+    must behave like its non-bare twin: the same history is sent to both, each is judged against the map of
+    acknowledged writes (GET of every path, Depth-1 listing after each step), and the two must agree."""
+    import os
+    import shutil
+    import urllib.parse
+    import compat  # noqa: F401
+    from bodies import vcard, vevent
+    from common import scratch_dir
+    from httpdrv import make_server, parse_multistatus
+    from xandikos.store.git import BareGitStore
+    for fe in ("wsgi", "aiohttp"):
+        root = scratch_dir()
+        srv = None
+        try:
+            srv = make_server(fe, root + "/data", prefix="/")
+            srv.close()
+            for n, t in (("barecal", "calendar"), ("barebook", "addressbook")):
+                st = BareGitStore.create(os.path.join(root, "data", "user", "calendars", n))
+                st.set_type(t)
+                del st
+            srv = make_server(fe, root + "/data", prefix="/")
+            srv.request("MKCALENDAR", "/user/calendars/treecal/", {}, b"")
+            srv.request("MKCOL", "/user/calendars/treebook/", {}, b"")
+            ev = lambda i, s: vevent("bare-%d" % i, summary=s)
+            steps = [("PUT", "a.ics", ev(1, "one"), {}), ("PUT", "b c.ics", ev(2, "two"), {}),
+                     ("PUT", "a.ics", ev(1, "one, changed"), {}), ("PUT", "a.ics", ev(1, "refused"), {"If-None-Match": "*"}),
+                     ("PUT", "n.vcf", vcard("Card", uid="bare-card"), {}),
+                     ("DELETE", "b c.ics", b"", {}), ("DELETE", "b c.ics", b"", {}), ("PUT", "b c.ics", ev(2, "again"), {}),
+                     ("DELETE", "a.ics", b"", {"If-Match": '"0000000000000000000000000000000000000000"'})]
+
+            def listing(base):
+                r = srv.request("PROPFIND", base, {"Depth": "1", "Content-Type": "text/xml"},
+                                b'<D:propfind xmlns:D="DAV:"><D:prop><D:getetag/></D:prop></D:propfind>')
+                ms = parse_multistatus(r.body) if r.status == 207 else None
+                if not ms:
+                    return "status %d" % r.status
+                return sorted(urllib.parse.unquote(urllib.parse.urlsplit(it["href"]).path)[len(base):]
+                              for it in ms[0] if urllib.parse.unquote(urllib.parse.urlsplit(it["href"]).path) != base)
+            names = sorted({s[1] for s in steps})
+            state = {}
+            for pair in (("barecal", "treecal"),):
+                want = {c: {} for c in pair}          # acknowledged content per collection
+                for k, (m, name, body, hdr) in enumerate(steps):
+                    obs = {}
+                    for c in pair:
+                        base = "/user/calendars/%s/" % c
+                        before = {n: srv.request("GET", base + urllib.parse.quote(n)) for n in names}
+                        h = dict(hdr)
+                        if m == "PUT":
+                            h["Content-Type"] = "text/vcard" if name.endswith(".vcf") else "text/calendar"
+                        r = srv.request(m, base + urllib.parse.quote(name), h, body)
+                        ok = r.status in (200, 201, 204)
+                        if ok and m == "PUT":
+                            want[c][name] = True
+                        elif ok:
+                            want[c].pop(name, None)
+                        after = {n: srv.request("GET", base + urllib.parse.quote(n)) for n in names}
+                        lst = listing(base)
+                        obs[c] = (ok, {n: (a.status, a.body if a.status == 200 else None) for n, a in after.items()}, lst)
+                        rep = {"level": "http", "frontend": fe, "collection": c + (" (bare repository)" if c.startswith("bare") else ""),
+                               "history": [[s[0], s[1], s[3]] for s in steps[:k + 1]]}
+                        for n in names:
+                            live = n in want[c]
+                            if live != (after[n].status == 200):
+                                chk.violation("C01:bare-collection:acknowledged-state-not-served",
+                                              f"{fe}: {c}: after step {k} ({m} {name} -> {r.status}) GET {n} = {after[n].status}, "
+                                              f"the acknowledged writes say it {'exists' if live else 'does not exist'}", rep)
+                            if not ok and (before[n].status, before[n].body) != (after[n].status, after[n].body):
+                                chk.violation("C01:bare-collection:refused-request-changed-something",
+                                              f"{fe}: {c}: step {k} ({m} {name}) answered {r.status} and changed {n}", rep)
+                        if isinstance(lst, list) and lst != sorted(want[c]):
+                            chk.violation("C01:bare-collection:listing-is-not-the-live-members",
+                                          f"{fe}: {c}: after step {k} the Depth-1 listing is {lst}, live members {sorted(want[c])}", rep)
+                    chk.case(("bare-collection", fe, k), nontrivial=k >= 1)
+                    a, b = obs[pair[0]], obs[pair[1]]
+                    if a != b:
+                        what = "answers" if a[0] != b[0] else ("listings" if a[2] != b[2] else "served members")
+                        chk.violation("C01:bare-collection:differs-from-its-non-bare-twin",
+                                      f"{fe}: step {k} ({m} {name}): the bare and the non-bare collection differ in their {what}",
+                                      {"level": "http", "frontend": fe, "history": [[s[0], s[1], s[3]] for s in steps[:k + 1]]})
+        finally:
+            if srv is not None:
+                srv.close()
+            shutil.rmtree(root, ignore_errors=True)
 
 
 def replay(chk, path):
